@@ -269,7 +269,7 @@ CONTRACTS["ufo2ft._compilers.interpolatableTTFCompiler:InterpolatableTTFCompiler
 # Two engine shims (requested in notes/C09.requests.md; both are pure extensions, every other case goes to the original code):
 #  (1) `f(*[<list comprehension>])`: Python unpacks the fully evaluated list, which is what it does for `f(*(<generator>))` too; the
 #      engine only hands the generator form to a model (`set.union` of contracts/c13.py), so the ListComp node is re-read as a GeneratorExp.
-#  (2) slice of a symbolic TUPLE value with constant bounds (`transformation[0:4]`): the tuple of the selected components.
+#  (2) [gone: slice of a symbolic TUPLE value with constant bounds (`transformation[0:4]`) is native in the engine since 2026-10-02]
 import ast as _ast  # noqa: E402
 
 from pyvc.ops import is_const as _is_const  # noqa: E402
@@ -293,23 +293,6 @@ if not getattr(_Ex.call, "_c09_shim", False):
 
     _call._c09_shim = True
     _Ex.call = _call
-
-if not getattr(_Ex.slice, "_c09_shim", False):
-    _orig_slice = _Ex.slice
-
-    def _slice(self, recv, sl, st, node):
-        if isinstance(recv.ty, T.Tuple) and not recv.is_py and sl.step is None:
-            lo = self.eval(sl.lower, st) if sl.lower else None
-            hi = self.eval(sl.upper, st) if sl.upper else None
-            if all(x is None or (_is_const(x) and isinstance(x.py, int)) for x in (lo, hi)):
-                ks = list(range(len(recv.ty.items)))[slice(lo and lo.py, hi and hi.py)]
-                nt = T.Tuple(*[recv.ty.items[k] for k in ks])
-                so = recv.ty.sort()
-                return Val(nt, nt.sort().mk(*[so.accessor(0, k)(recv.term) for k in ks]))
-        return _orig_slice(self, recv, sl, st, node)
-
-    _slice._c09_shim = True
-    _Ex.slice = _slice
 
 #  (3) filtered list comprehension `[f(x) for x in xs if c(x)]`: the engine states it by MEMBERSHIP only (seq.contains), from which no back
 #      end derives a position.  For contracts that ask for it (`comp_positions = True` on the contract object) two Skolem functions are added:
@@ -564,3 +547,59 @@ def _nm_build(d):
 
 
 CONTRACTS["ufo2ft.preProcessor:TTFInterpolatablePreProcessor.check_for_nonmatching_components"].runtime = Runtime(_nm_cases, _nm_build)
+
+
+# =====================================================================================================
+# BaseIFilter.__call__ as run on a DecomposeComponentsIFilter: afterwards NO master is left with a component
+# =====================================================================================================
+# (the first wave could only prove the call-site obligations of `filter_` here: the engine havocked the heap of a call under `and`
+# unconditionally; since 2026-10-02 the effects of `c and f(x)` are conditional, so the post-state can be carried through the loop)
+_WELL_NAMED = c13._WELL_NAMED
+_NAMED_OTHERS = f"all(all(implies(n != glyphName, self.heap_components[gs[n]] == old(self.heap_components)[gs[n]]) for n in gs.keyset) for gs in {_GSS})"
+
+# the filter once more, with the frame clauses the loop of __call__ needs (glyphs of other names untouched; names stay well-formed);
+# same body, same requires + "every glyph carries the name it is stored under" (true of layers / _GlyphSet.from_layer)
+contract(
+    "ufo2ft.filters.decomposeComponents:DecomposeComponentsIFilter.filter",
+    name="framed",
+    props=["C09"],
+    params={"self": Ref("SXDIFilter"), "glyphName": STR, "glyphs": List(Ref("SXGlyph"))},
+    returns=BOOL,
+    calls={"ufo2ft.util:decomposeCompositeGlyph": "ufo2ft.util:decomposeCompositeGlyph#all"},
+    globals={"zip_strict": _Ref("builtins.zip", zip, obj=zip)},
+    # (`glyphs` holds every master's glyph of that name — stated with a POSITION, the form the caller's proof produces)
+    requires=[_LEN_MATCH, f"all(implies(glyphName in gs.keyset, any(glyphs[k] == gs[glyphName] for k in range(len(glyphs)))) for gs in {_GSS})", _WELL_NAMED],
+    ensures={
+        "acted-on-all-masters": f"implies(result, {_DECOMPOSED_ALL})",
+        "declines-only-if-no-components": "implies(not result, all(len(g.components) == 0 for g in glyphs))",
+        # (the `idle` clause of the SXDIFilter variant is left out here: this variant is the summary that __call__ sees, kept lean)
+        "grow-only-this-name": c13._GROW,
+        "others": _NAMED_OTHERS,
+        "well-named": _WELL_NAMED,
+    },
+    canaries={"always-acts": "result", "never-acts": "not result"},
+    modifies=["SXGlyph.components", "SXGlyph.ncontours", "SXGlyphSet.glyphs"],
+    ghost_vars={"HC": (Map(Ref("SXGlyph"), List(Ref("SXComponent"))), "self.heap_components"), "HC1": (Map(Ref("SXGlyph"), List(Ref("SXComponent"))), "self.heap_components")},
+    ghost={"glyph = glyphSet.get(glyphName)": ["HC = self.heap_components"]},
+    hints={
+        "decomposeCompositeGlyph(glyph, interpolatedLayer or glyphSet)": [
+            f"all(implies(glyphName in gs.keyset and gs[glyphName] != glyph, self.heap_components[gs[glyphName]] == HC[gs[glyphName]]) for gs in {_GSS})"
+        ]
+    },
+    loops={
+        "for (glyphSet, interpolatedLayer) in zip_strict(self.context.glyphSets, self.getInterpolatedLayers())": Loop(
+            index="k",
+            invariants={
+                "done": f"all(implies(glyphName in {_GSS}[a].keyset, len({_GSS}[a][glyphName].components) == 0) for a in range(k))",
+                "others": f"all(all(implies(n != glyphName, self.heap_components[gs[n]] == HC1[gs[n]]) for n in gs.keyset) for gs in {_GSS})",
+            },
+        )
+    },
+    merge_branches=False,
+)
+CONTRACTS["ufo2ft.filters.decomposeComponents:DecomposeComponentsIFilter.filter#framed"].runtime = Runtime(_fam_cases, _b_dfilter)
+
+# NOT REGISTERED (attempt kept in notes/C09.md): `BaseIFilter.__call__` on a DecomposeComponentsIFilter with the post-state "no glyph of any master
+# has a component left".  With the engine's conditional call effects the function is executable and the loop invariants (done / covered /
+# well-named / todo-unreported) are the right ones, but on the path where `any(include(g) ..) and filter_(..)` is false the heap is
+# ite(<exists-guard>, after, before) and every solver configuration returns unknown even for goals that are literally a callee ensure.
